@@ -43,10 +43,12 @@
                                stripped line, C03_stripped_line_roundtrip);
      4 C03_item_roundtrip      parse_line gives expected_item (the orders of writer and reader
                                agree: C03_order_tables_agree, from C12's table lemmas);
-       C03_value_text / C03_value_curves / C03_value_number_string / C03_value_roundtrip
-                               the value: text that is not a plain decimal literal comes back
-                               verbatim (C08), ~Curves and API/UWI always verbatim; numbers
-                               under the oracle hypothesis Hnum;
+       C03_value_text / C03_value_curves / C03_value_number_string / C03_value_int /
+       C03_value_roundtrip     the value: text that is not a plain decimal literal comes back
+                               verbatim (C08), ~Curves and API/UWI always verbatim; 64-bit
+                               integers come back exactly (str(int) is a plain integer
+                               literal: Proofs/IntTextProofs.v); floats under the oracle
+                               hypothesis Hnum;
        C03_expected_meta       hence, for an unbracketed unit and a value that reads back,
                                meta of the item read = meta of the item written with the
                                mnemonic case-mapped;
@@ -80,7 +82,7 @@
    val_equiv numeq (num (vstr fstr v)) v.  Case mapping is ASCII (upper/lower of PyStr). *)
 From Coq Require Import List NArith ZArith Bool String.
 Import ListNotations.
-Require Import PyStr Regex NumLit Num NumSpec HeaderLine Tables SectionParse Writer.
+Require Import PyStr Regex NumLit Num NumSpec HeaderLine Tables SectionParse Read Writer.
 Require Import HeaderLineSpec BlankMnemonicProofs ItemsBindProofs OrderTableProofs WriteHeaderProofs.
 Open Scope string_scope. Open Scope list_scope. Open Scope N_scope.
 
@@ -175,6 +177,12 @@ Theorem C03_value_roundtrip : forall numeq fstr k name val,
   forall Hnum : val_equiv numeq (num (vstr fstr val)) val,
   val_equiv numeq (read_value k name (vstr fstr val)) val.
 Proof. exact read_value_numeric. Qed.
+
+(* integers: str(z) reads back as z exactly, for every 64-bit z (no oracle) *)
+Theorem C03_value_int : forall fstr k name z,
+  k <> KCurves -> (k = KParameter \/ is_number_string name = false) -> in_int64 z = true ->
+  read_value k name (vstr fstr (VInt z)) = VInt z.
+Proof. exact read_value_int. Qed.
 
 Theorem C03_expected_meta : forall fstr k c it,
   conf_unit (i_unit it) = true -> not_bracketed (i_unit it) = true ->
@@ -365,6 +373,7 @@ Print Assumptions C03_value_text.
 Print Assumptions C03_value_curves.
 Print Assumptions C03_value_number_string.
 Print Assumptions C03_value_roundtrip.
+Print Assumptions C03_value_int.
 Print Assumptions C03_expected_meta.
 Print Assumptions C03_section_roundtrip.
 Print Assumptions C03_blank_mnemonic_line.
